@@ -22,6 +22,12 @@ pub enum Policy {
     Starve { victims: Vec<u32> },
     /// next task id after the current one
     RoundRobin,
+    /// uniform, but `victim` is not scheduled during steps `from..from+len` unless nothing
+    /// else can run (a thread descheduled in the middle of its work while the others go on)
+    Stall { victim: u32, from: u32, len: u32 },
+    /// the main task (feeder) is preferred during the first `k` steps so that several frames are
+    /// in flight, then `victim` is held back for `len` steps while the others run (sticky, `p_keep` per mille)
+    Ahead { k: u32, victim: u32, len: u32, p_keep: u32 },
     /// "continue the current task if runnable, else the lowest id", except at
     /// the listed (step, task) deviations. Used for schedule minimisation.
     Deviations { dev: Vec<(u32, u32)> },
@@ -30,7 +36,18 @@ pub enum Policy {
 }
 
 pub fn random_policy(r: &mut Rng, ntasks_guess: u32) -> Policy {
-    match r.below(10) {
+    match r.below(16) {
+        12..=15 => Policy::Ahead {
+            k: *r.pick(&[30u32, 60, 100, 150, 250, 400]),
+            victim: 1 + r.below(ntasks_guess.max(2) as usize - 1) as u32,
+            len: *r.pick(&[10u32, 30, 80, 200, 1000]),
+            p_keep: *r.pick(&[0u32, 500, 900]),
+        },
+        10 | 11 => Policy::Stall {
+            victim: r.below(ntasks_guess.max(1) as usize) as u32,
+            from: r.below(400) as u32,
+            len: *r.pick(&[20u32, 60, 150, 400, 2000]),
+        },
         0 | 1 | 2 => Policy::Uniform,
         3 | 4 => Policy::Sticky {
             p_keep: *r.pick(&[500u32, 800, 900, 950, 990]),
@@ -60,6 +77,9 @@ pub struct SchedState {
     pub max_runnable: usize,
     pub switches: usize,
     pub hash: u64,
+    /// (step, task) pairs where the choice differs from the default policy
+    /// "continue the current task if runnable, else the lowest id".
+    pub devs: Vec<(u32, u32)>,
 }
 
 /// Decision logic of one execution.
@@ -174,6 +194,29 @@ impl Decider {
                     others[self.rng.below(others.len())]
                 }
             }
+            Policy::Stall { victim, from, len } => {
+                let stalled = step >= *from && step - *from < *len;
+                let others: Vec<u32> = ids.iter().copied().filter(|i| !(stalled && i == victim)).collect();
+                if others.is_empty() {
+                    ids[self.rng.below(ids.len())]
+                } else {
+                    others[self.rng.below(others.len())]
+                }
+            }
+            Policy::Ahead { k, victim, len, p_keep } => {
+                let keep = (self.rng.below(1000) as u32) < *p_keep;
+                if step < *k && ids.contains(&0) {
+                    0
+                } else {
+                    let stalled = step >= *k && step - *k < *len;
+                    let others: Vec<u32> = ids.iter().copied().filter(|i| !(stalled && i == victim)).collect();
+                    match cur_runnable {
+                        Some(c) if keep && (others.is_empty() || others.contains(&c)) => c,
+                        _ if others.is_empty() => ids[self.rng.below(ids.len())],
+                        _ => others[self.rng.below(others.len())],
+                    }
+                }
+            }
             Policy::RoundRobin => {
                 let c = cur.unwrap_or(0);
                 *ids.iter().filter(|i| **i > c).min().unwrap_or(&lowest)
@@ -198,6 +241,9 @@ impl Decider {
         };
         let mut st = self.state.borrow_mut();
         st.choices.push(pick);
+        if pick != cur_runnable.unwrap_or(lowest) {
+            st.devs.push((step, pick));
+        }
         st.max_runnable = st.max_runnable.max(ids.len());
         if cur != Some(pick) {
             st.switches += 1;
